@@ -123,29 +123,34 @@ def _format_column(col, max_rows: int | None = None) -> List[str]:
 	# Type-sensitive formatting
 	out = []
 	for v in preview:
-		if v is _ELLIPSIS:
-			out.append('...')
-		elif v is None:
-			out.append('None')
-		elif col._dtype and col._dtype.kind is float and isinstance(v, int):
-			# an int kept in a float column (it may be too large for a float)
-			out.append(_int_text(int(v)) + ".0")
-		elif col._dtype and col._dtype.kind is float:
-			# NaN and infinities have no integer value; format them as-is
-			out.append(f"{v:.1f}" if (v == v and v not in (float('inf'), float('-inf')) and v == int(v)) else f"{v:g}")
-		elif col._dtype and col._dtype.kind is int:
-			out.append(_int_text(v))
-		elif col._dtype and col._dtype.kind is date:
-			out.append(v.isoformat())
-		elif col._dtype and col._dtype.kind is str:
-			# Pure str columns: no quotes (type already known from footer)
-			out.append(_any_text(v) if v is not None else 'None')
-		else:
-			# Object type - quote strings to distinguish from other types
-			if isinstance(v, str):
-				out.append(_quoted(v))
+		# (a cell whose own formatting hooks fail - a subclass of int, float or date with a raising
+		# __str__ / __format__ / isoformat - is shown by its type, like any other unprintable cell)
+		try:
+			if v is _ELLIPSIS:
+				out.append('...')
+			elif v is None:
+				out.append('None')
+			elif col._dtype and col._dtype.kind is float and isinstance(v, int):
+				# an int kept in a float column (it may be too large for a float)
+				out.append(_int_text(int(v)) + ".0")
+			elif col._dtype and col._dtype.kind is float:
+				# NaN and infinities have no integer value; format them as-is
+				out.append(f"{v:.1f}" if (v == v and v not in (float('inf'), float('-inf')) and v == int(v)) else f"{v:g}")
+			elif col._dtype and col._dtype.kind is int:
+				out.append(_int_text(v))
+			elif col._dtype and col._dtype.kind is date:
+				out.append(v.isoformat())
+			elif col._dtype and col._dtype.kind is str:
+				# Pure str columns: no quotes (type already known from footer)
+				out.append(_any_text(v) if v is not None else 'None')
 			else:
-				out.append(_any_text(v))
+				# Object type - quote strings to distinguish from other types
+				if isinstance(v, str):
+					out.append(_quoted(v))
+				else:
+					out.append(_any_text(v))
+		except Exception:
+			out.append(f"<{type(v).__name__}>")
 
 	# Align: numeric right, others left
 	max_len = max(len(s) for s in out) if out else 0
